@@ -45,6 +45,8 @@ SCENARIOS = {
     "clone_partial": [[["produce.partial", "k1"]], [["produce.force_local", "k1"]]],
     # provenance: outer reaches produce only through a one-element batch of nest, which another thread computes
     "provenance": [[["outer", "k1"]], [["nest", "k1"]]],
+    # an automatically versioned function whose helper is defined below it: the first calls refresh its version
+    "auto_version": [[["autov", "k1"]], [["autov", "k1"]]],
 }
 STORES = ["cold", "warm_store", "warm_cache"]
 BUDGETS = {"4KiB": 4 * env.KIB, "16MiB": 16}
@@ -60,7 +62,8 @@ def cases(tier, seed):
     cfgs = configs()
     quick_sys = {(s, st, "4KiB") for s in list(SCENARIOS)[:6] for st in ("cold", "warm_store")} | {
         ("same_key", "warm_cache", "4KiB"), ("diff_keys", "cold", "16MiB"), ("batch", "warm_store", "16MiB"),
-        ("same_key", "cold_mem", "16MiB"), ("nested", "cold_mem", "16MiB"), ("batch", "cold_mem", "16MiB")}
+        ("same_key", "cold_mem", "16MiB"), ("nested", "cold_mem", "16MiB"), ("batch", "cold_mem", "16MiB"),
+        ("auto_version", "cold", "16MiB")}
     for ci, (s, st, b) in enumerate(cfgs):
         n = len(SCENARIOS[s])
         if tier == "thorough" or (s, st, b) in quick_sys:
@@ -142,6 +145,12 @@ def entries_of(scenario):
 def setup(root, scenario, store, budget):
     from vf import ffuncs
 
+    if scenario == "auto_version":
+        # the module is loaded afresh, as at the start of a process: the version computed while autov is registered
+        # (its helper is not defined yet) is the stale one again
+        import importlib
+
+        importlib.reload(ffuncs)
     ffuncs.TABLE.update(table())
     st = env.mem_backend() if store == "cold_mem" else env.fs_backend(os.path.join(root, "data"), cache_mb=BUDGETS[budget])
     env.set_env(os.path.join(root, "env"), default_storage=st)
